@@ -177,3 +177,35 @@ Theorem C14_update_metadata_frame : forall c now name,
     end.
 Proof. exact update_metadata_frame. Qed.
 Print Assumptions C14_update_metadata_frame.
+
+(** round 6: names that look like defaults.  The per-root delete of Reset
+    (prefix origin = root name, path "*") is never a whole-target delete, whatever
+    the root or origin is called, and so never ends a stream *)
+Theorem C14_reset_root_delete_not_target_delete : forall name r now,
+  r <> ""%string -> is_target_delete (delete_noti name r now ["*"]) = false.
+Proof. exact reset_root_delete_not_target_delete. Qed.
+Print Assumptions C14_reset_root_delete_not_target_delete.
+
+Theorem C14_reset_root_delete_keeps_stream : forall name r now T q,
+  r <> ""%string -> snd (stream_feed T q [delete_noti name r now ["*"]]) = false.
+Proof. exact reset_root_delete_keeps_stream. Qed.
+Print Assumptions C14_reset_root_delete_keeps_stream.
+
+(** round 6: construction options.  The layer for cache.WithServerName (refresh
+    of the leaf meta/serverName by UpdateMetadata / Reset) keeps the invariant,
+    is local to its target, announces only that target, and changes no other
+    path of the tree *)
+Theorem C14_server_name_refresh_local : forall sname now c name,
+  cinv c ->
+  cinv (fst (srv_refresh_in sname now c name)) /\
+  Forall (owns name) (snd (srv_refresh_in sname now c name)) /\
+  forall k, k <> name ->
+    assoc k (c_targets (fst (srv_refresh_in sname now c name))) = assoc k (c_targets c).
+Proof. exact srv_refresh_in_local. Qed.
+Print Assumptions C14_server_name_refresh_local.
+
+Theorem C14_server_name_refresh_frame : forall sname now t q,
+  wf_tree (t_tree t) -> t_name t <> ""%string -> q <> [md_root; md_server_name] ->
+  lookup (t_tree (fst (srv_refresh sname now t))) q = lookup (t_tree t) q.
+Proof. exact srv_refresh_frame. Qed.
+Print Assumptions C14_server_name_refresh_frame.
